@@ -157,7 +157,7 @@ def ob_maxcount_bm(width, depth, mkl, Ly, timeout_ms):
     coly = [book.colterm(kid, r, width) for r in range(depth)]
     ph = phi_terms(sk, pre, coly, ny, yb)
     assume = list(post.pc) + book.range_constraints() + [sk.rep_inv(pre)]
-    goal = z3.And(*[z3.Implies(p > 0, zx(rv.t, GW) >= p) for (p, _c) in ph])
+    goal = z3.And(*[z3.Implies(p > 0, z3.Extract(GW - 1, 0, rv.t) >= p) for (p, _c) in ph])
     funcs = sorted(ex.funcs_encoded)
     r, m = common.z3check(assume + [z3.Not(goal)], timeout_ms, stats, label=f"_max_count(y) >= Phi_r when positive, {depth}x{width} mkl={mkl} len(y)={Ly}")
     if r == "unsat":
